@@ -118,6 +118,57 @@ def h_fit(h, k, may_raise):
     h.claim(f'{cid}/pore-widths', [float(w) for w in widths] == wv)
 
 
+def h_two_fits(h, variant):
+    """two fits in one process (module-level caches must be invisible): the second fit - on a pressure table that differs from the
+    first only below 1e-4 (micropore range), or on another kernel file evaluated at the same pressures - uses ITS kernel values"""
+    import pygaps.characterisation.psd_kernel as pk
+    from scipy import optimize
+    P1 = [1.0e-5, 2.0e-5, 3.0e-5]
+    P2 = [1.2e-5, 2.2e-5, 3.2e-5] if variant == 'nearby-pressures' else list(P1)
+    paths = ('kernel-path', 'kernel-path') if variant == 'nearby-pressures' else ('dir-a/kernel.csv', 'dir-b/kernel.csv')
+    k = 3
+    K = {}
+
+    def kern_for(path):
+        def mk(i, w):
+            def f(p):
+                out = []
+                for v in numpy.asarray(p, dtype=float).ravel():
+                    key = (path, i, float(v))
+                    if key not in K:
+                        K[key] = h.real(f'K_{len(K)}', nonneg=True)
+                    out.append(K[key])
+                return isofix.column(h, out)
+            return f
+        return {w: mk(i, w) for i, w in enumerate(WIDTHS)}
+    ns1 = [h.real(f'n{i}', nonneg=True) for i in range(k)]
+    ns2 = [h.real(f'm{i}', nonneg=True) for i in range(k)]
+    ms = MinimizeStub(h, len(WIDTHS))
+    with stubs.patched((pk, '_load_kernel', kern_for), (optimize, 'minimize', ms)):
+        for (P, ns, path) in ((P1, ns1, paths[0]), (P2, ns2, paths[1])):
+            try:
+                pk.psd_dft_kernel_fit(numpy.array(P), isofix.column(h, ns), path, bspline_order=0)
+            except Exception:     # noqa: BLE001  (optimiser failure paths: the objective was handed over all the same)
+                pass
+    cid = f'C18/two-fits/{variant}'
+    h.claim(f'{cid}/two-solver-calls', len(ms.calls) == 2)
+    if len(ms.calls) != 2:
+        return
+    z = [h.real(f'z{i}') for i in range(len(WIDTHS))]
+    c = ms.calls[1]
+    evaluated = all((paths[1], i, float(P2[j])) in K for j in range(k) for i in range(len(WIDTHS)))
+    h.claim(f'{cid}/second-fit-evaluates-its-own-kernel-at-its-own-pressures', evaluated)
+    if not evaluated:
+        return
+    want = 0
+    for j in range(k):
+        sj = 0
+        for i, w in enumerate(WIDTHS):
+            sj = sj + K[(paths[1], i, float(P2[j]))] * z[i]
+        want = want + (sj - ns2[j]) ** 2
+    h.claim(f'{cid}/second-objective-uses-the-second-kernel-values', h.close(c.fun(isofix.column(h, z)), want, 1e-12))
+
+
 def h_limits(h, lim):
     """psd_dft: only points inside the pressure limits reach the fit; fewer than 3 is refused"""
     import pygaps.characterisation.psd_kernel as pk
@@ -218,5 +269,7 @@ def obligations(tier):
         obs.append(Obligation(f'C18/fit/k={k}', h_fit, (k, True), bounds=f'3 pore widths x {k} pressures; spline order 0', **kw))
     for lim in [('sym', 'sym'), ('sym', None), (None, 'sym'), (None, None)]:
         obs.append(Obligation(f'C18/limits/{lim}', h_limits, (lim,), bounds='k=4; symbolic limits', **kw))
+    for v in ('nearby-pressures', 'other-kernel-file'):
+        obs.append(Obligation(f'C18/two-fits/{v}', h_two_fits, (v,), bounds='3 widths x 3 concrete pressures; symbolic kernel entries and loadings', **kw))
     obs.append(Obligation('C18/kernel-cache', h_kernel_cache, (), bounds='two concrete kernel files', **kw))
     return obs
